@@ -294,6 +294,11 @@ pub fn search(_obl: &str) -> Vec<Witness> {
         }
         let dx = Index::drop().name("i_y").table(a("t")).to_owned();
         cmp(&mut out, format!("{d:?} drop index"), run(std::panic::AssertUnwindSafe(|| match d { D::My => dx.to_string(MysqlQueryBuilder), D::Pg => dx.to_string(PostgresQueryBuilder) })), Some(match d { D::My => "DROP INDEX `i_y` ON `t`".to_string(), D::Pg => "DROP INDEX \"i_y\"".into() }));
+        if d == D::My {
+            // MySQL's DROP INDEX has no IF EXISTS (the renderer refuses it)
+            let dx = Index::drop().name("i_y").table(a("t")).if_exists().to_owned();
+            cmp(&mut out, "My drop index if exists".into(), run(std::panic::AssertUnwindSafe(|| dx.to_string(MysqlQueryBuilder))), None);
+        }
         if d == D::Pg {
             let dx = Index::drop().name("i_y").table((a("s"), a("t"))).if_exists().to_owned();
             cmp(&mut out, "Pg drop index if exists, schema".into(), run(std::panic::AssertUnwindSafe(|| dx.to_string(PostgresQueryBuilder))), Some("DROP INDEX IF EXISTS \"s\".\"i_y\"".into()));
